@@ -36,12 +36,25 @@ struct AllocTrack {
   volatile int recycle = 0;
   struct Freed { void* p; size_t size; };
   Freed pool[512]; int npool = 0;
+  volatile int pool_lock = 0;   // the pool is used from several threads in the scheduler scenarios
+  void lock() { while (__sync_lock_test_and_set(&pool_lock, 1)) {} }
+  void unlock() { __sync_lock_release(&pool_lock); }
   void* take(size_t s, size_t align) {
     if (!recycle || !on) return 0;
-    for (int i = npool - 1; i >= 0; --i) if (pool[i].size == s && ((uintptr_t)pool[i].p % (align ? align : 16)) == 0) { void* p = pool[i].p; pool[i] = pool[npool - 1]; npool--; return p; }
-    return 0;
+    lock();
+    void* r = 0;
+    for (int i = npool - 1; i >= 0; --i) if (pool[i].size == s && ((uintptr_t)pool[i].p % (align ? align : 16)) == 0) { r = pool[i].p; pool[i] = pool[npool - 1]; npool--; break; }
+    unlock();
+    return r;
   }
-  bool keep(void* p, size_t s) { if (!recycle || !on || !s || npool >= 512 || nshift || residue >= 0) return false; pool[npool].p = p; pool[npool].size = s; npool++; return true; }
+  bool keep(void* p, size_t s) {
+    if (!recycle || !on || !s || nshift || residue >= 0) return false;
+    lock();
+    bool ok = npool < 512;
+    if (ok) { pool[npool].p = p; pool[npool].size = s; npool++; }
+    unlock();
+    return ok;
+  }
   // address of malloc / calloc / realloc blocks modulo 64 (malloc only promises 16): -1 leaves the allocator alone, 0/16/32/48 makes
   // every such block start at that residue, its END still being the end of the underlying allocation (so overruns stay visible)
   volatile int residue = -1;
